@@ -28,7 +28,9 @@ MainStages == {SSeq[i] : i \in DOMAIN SSeq}
 \*   the run goes on (nobody attests) past the pruning height of the message (older than 300 blocks at a height = 0 mod 50)
 LapseStages == {"relayed", "reportedpad", "split", "newval"}
 \*   a validator with more than a quarter of the stake / the last active validator whose pigeon never runs: 120 blocks of jail sweeps
-SilentWorlds == {"big", "solo"}
+\*   life: a validator relays, withdraws its whole stake and is removed from staking (signing info and relay history stay), more than a
+\*   thousand message ids later new messages are attested, the validator joins again: 120 blocks across every cadence
+SilentWorlds == {"big", "solo", "life"}
 CSeq == <<"negative", "zero", "one", "huge63", "huge64", "huge255", "empty", "overlong", "malformed",
           "failed", "nologs", "notopics", "foreignfirst", "manylogs", "baddata", "manytopics">>
 CIdx(c) == CHOOSE j \in DOMAIN CSeq : CSeq[j] = c
